@@ -218,6 +218,24 @@ def _exec_case(case):
         cmp("weight", qm.weight.grad, w2.grad, wa.grad, nrows)
     if qm.bias is not None:
         cmp("bias", qm.bias.grad, b2.grad, ba.grad, nrows)
+    if not out.failures and case["seed"] % 2 == 0:
+        # gradient accumulation: a second forward / backward with the SAME upstream gradient tensor (micro-batches, two heads fed
+        # by one tensor). The upstream gradient belongs to the caller, and every accumulated gradient is exactly twice the first
+        first = {n: p.grad.detach().clone() for n, p in model.named_parameters() if p.grad is not None and not isinstance(p.grad, QTensor)}
+        xg1 = None if base.grad is None else base.grad.detach().clone()
+        g_keep = gO.clone()
+        y2 = cut(model, fed)
+        r2 = y2 if isinstance(y2, Raised) else cut(lambda: (y2.dequantize() if isinstance(y2, QTensor) and case.get("via_dequantize") else y2).backward(gO))
+        if isinstance(r2, Raised):
+            return out.fail(f"{tag}/second-backward-raises:{r2.type}", r2.text)
+        if not torch.equal(gO, g_keep):
+            out.fail(f"{tag}/upstream-grad-modified", f"the upstream gradient tensor handed to backward() was modified by accumulating into a parameter gradient (rank {rank}, weights {case['wq']}, act {case['aq']})")
+        for n, p in model.named_parameters():
+            if n in first and not torch.equal(p.grad, first[n] * 2):
+                out.fail(f"{tag}/accumulated-grad", f"{n}.grad after two identical backward passes is not twice the first (rank {rank}, weights {case['wq']}, act {case['aq']})")
+                break
+        if xg1 is not None and not torch.equal(base.grad, xg1 * 2):
+            out.fail(f"{tag}/accumulated-grad", f"input.grad after two identical backward passes is not twice the first (rank {rank})")
     return out
 
 
